@@ -152,7 +152,16 @@ def string_enum(rng, nvariants=None, *, allow_default=True, allow_disabled=True,
     return it
 
 
+def fix_generics(it: Item) -> Item:
+    """drop a type parameter that no field uses any more (rustc rejects unused parameters)"""
+    if it.tparams and not any(f.ty == "G0" for v in it.variants for f in v.fields):
+        it.tparams = 0
+    return it
+
+
 def classify(prop: str, items, extra_kind=None):
+    for it in items:
+        fix_generics(it)
     """run the extracted model's `spell` query on candidate definitions.
     -> list of None (generator error) or dict(nonoverlap, variants=[dict(flags, spellings, preferred)])"""
     d = os.path.join(R.WORK, prop)
